@@ -59,7 +59,7 @@ func (c *Ctx) newTkHarness(kind string) *tkHarness {
 
 // call invokes an exported method of the tokenizer (promoted methods included).
 func (h *tkHarness) call(name string, args ...mv) (mv, mOutcome) {
-	f := h.c.Prog.LookupMethod(h.tokT, nil, name)
+	f := h.c.lookupMethod(h.tokT, name)
 	if f == nil {
 		return nil, mOutcome{kind: "opaque", why: "method " + name + " not found on " + h.tokT.String()}
 	}
@@ -79,7 +79,7 @@ func (h *tkHarness) readTokens(v mv) ([]tkTok, string) {
 	for _, t := range sl.arr {
 		var tk tkTok
 		for _, acc := range []string{"Type", "Value", "Line", "Column"} {
-			f := h.c.Prog.LookupMethod(tokT, nil, acc)
+			f := h.c.lookupMethod(tokT, acc)
 			r, o := h.m.Call(f, t)
 			if o.kind != "ok" {
 				return nil, "Token." + acc + ": " + o.why
